@@ -303,6 +303,31 @@ def run(ctx, rep):
     check_flag_clears(ctx, rep)
     check_shared_flags(ctx, rep)
     check_handed_out_buffers(ctx, rep)
+    # a notification never raises: the update that triggered it has already happened, the remaining listeners would not be told and the dirty flag would not be set
+    nh_ = 0
+    for cls_ in sorted(ctx.classes.classes.values(), key=lambda c: c.qualname):
+        if '.cli.' in cls_.qualname:
+            continue
+        for hn_ in ('handle_parameter_changed', 'handle_model_changed'):
+            f_ = cls_.methods.get(hn_)
+            if f_ is None:
+                continue
+            nh_ += 1
+            raises_ = [r for r in ast.walk(f_) if isinstance(r, ast.Raise)]
+            rep.check('C11.H', f"{cls_.qualname}::{hn_}::a-notification-does-not-raise", not raises_, where(cls_.module, raises_[0] if raises_ else f_), None,
+                      f"{cls_.name}.{hn_} can raise: the parameter already has its new value when the listeners are told, so the exception leaves this object's flag down, skips the "
+                      f"listeners that come after it, and surfaces in whoever assigned the value")
+    if nh_ < 20:
+        rep.incomplete('C11.H', 'handlers-do-not-raise', '', f"only {nh_} handlers found")
+    # the value a model hands out after an update is computed from refreshed inputs (C07.C caller rule), and nothing read from a parameter at construction is served later (C09.P)
+    from props import c07 as _c07v, c09 as _c09v
+    from sa.report import RuleProxy as _RPv
+    try:
+        _c07v.check_callers(ctx, _RPv(rep, 'C11.V', 'callers::'))
+    except Unsupported as u_:
+        rep.undecided('C11.V', 'callers::check_callers', '', str(u_))
+    _c09v.check_snapshots(ctx, rep, rule='C11.M', modules=['torchtree.evolution.coalescent', 'torchtree.evolution.branch_model', 'torchtree.evolution.site_model',
+                                                            'torchtree.evolution.tree_likelihood', 'torchtree.evolution.bdsk', 'torchtree.evolution.birth_death'], floor=15)
     if check_flag_cleared_after_the_refresh(ctx, rep) < 15:
         rep.incomplete('C11.S', 'flags-cleared-last', '', 'fewer than 15 flag-guarded refresh blocks found')
     check_cache_values(ctx, rep)
